@@ -7,7 +7,7 @@ from ..strlang import Obj, ListOf, Slot, Lit, Cat, Star, BoolUnknown
 from .changelogmodel import Model
 
 META = {
-    'design_ref': 'DESIGN.md §3 C04',
+    'design_ref': 'DESIGN.md §5 C04',
     'technique': 'writer template of ChangeBlock._format extracted by abstract interpretation and cut into lines; marked-language capture '
                  'agreement of the header line with topline, of each key=value item with keyvalue / value_re, of the trailer with endline; '
                  'abstract transition system of parse_changelog (state × line language) used to show that every line class of a well-formed '
